@@ -2196,3 +2196,90 @@ Proof.
       cbn [snd] in *. apply Forall_app. split; [apply HL|exact IH].
     + apply IH.
 Qed.
+
+(* ------------------------------------------------------------------ every top-level button is polled, once *)
+Lemma mem_cons : forall x a l, mem_name x (a :: l) = name_eqb x a || mem_name x l.
+Proof. reflexivity. Qed.
+
+Lemma mem_insert : forall x y l, mem_name x (insert_name y l) = name_eqb x y || mem_name x l.
+Proof.
+  intros x y l. induction l as [|a r IH]; [reflexivity|]. cbn [insert_name].
+  destruct (name_leb y a); [reflexivity|]. rewrite mem_cons, IH, !mem_cons.
+  destruct (name_eqb x a), (name_eqb x y); reflexivity.
+Qed.
+
+Lemma mem_sort : forall x l, mem_name x (sort_names l) = mem_name x l.
+Proof.
+  intros x l. induction l as [|a r IH]; [reflexivity|]. unfold sort_names in *. cbn [fold_right].
+  rewrite mem_insert, IH. reflexivity.
+Qed.
+
+Lemma mem_dedup : forall x l, mem_name x (dedup l) = mem_name x l.
+Proof.
+  intros x l. induction l as [|a r IH]; [reflexivity|]. cbn [dedup]. destruct (mem_name a r) eqn:E.
+  - rewrite IH, mem_cons. destruct (name_eqb x a) eqn:E1; [|reflexivity].
+    apply name_eqb_eq in E1. subst x. rewrite E. reflexivity.
+  - rewrite !mem_cons, IH. reflexivity.
+Qed.
+
+Lemma nodup_insert : forall y l, nodup_names l = true -> mem_name y l = false -> nodup_names (insert_name y l) = true.
+Proof.
+  intros y l. induction l as [|a r IH]; intros Hn Hm; [reflexivity|]. cbn [insert_name].
+  destruct (name_leb y a).
+  - cbn [nodup_names]. rewrite Hm. exact Hn.
+  - cbn [nodup_names] in *. apply andb_true_iff in Hn as [H1 H2]. rewrite mem_cons in Hm.
+    apply orb_false_iff in Hm as [Hm1 Hm2]. rewrite mem_insert, (IH H2 Hm2), andb_true_r.
+    rewrite name_eqb_sym, Hm1. exact H1.
+Qed.
+
+Lemma nodup_sort : forall l, nodup_names l = true -> nodup_names (sort_names l) = true.
+Proof.
+  induction l as [|a r IH]; intro Hn; [reflexivity|]. cbn [nodup_names] in Hn. apply andb_true_iff in Hn as [H1 H2].
+  unfold sort_names in *. cbn [fold_right]. apply nodup_insert; [apply IH; exact H2|].
+  fold (sort_names r). rewrite mem_sort. apply negb_true_iff. exact H1.
+Qed.
+
+Lemma nodup_dedup : forall l, nodup_names (dedup l) = true.
+Proof.
+  induction l as [|a r IH]; [reflexivity|]. cbn [dedup]. destruct (mem_name a r) eqn:E; [exact IH|].
+  cbn [nodup_names]. rewrite mem_dedup, E, IH. reflexivity.
+Qed.
+
+Lemma nodup_sorted_set : forall l, nodup_names (sorted_set l) = true.
+Proof. intro l. unfold sorted_set. apply nodup_sort, nodup_dedup. Qed.
+
+Lemma mem_sorted_set : forall x l, mem_name x (sorted_set l) = mem_name x l.
+Proof. intros. unfold sorted_set. rewrite mem_sort, mem_dedup. reflexivity. Qed.
+
+Lemma mem_name_of_in : forall x l, In x l -> mem_name x l = true.
+Proof.
+  intros x l H. unfold mem_name. apply existsb_exists. exists x. split; [exact H|apply name_eqb_refl].
+Qed.
+
+Lemma every_button_polled : forall its,
+  nodup_names (p_polls (transl its)) = true /\ nodup_names (p_ticks (transl its)) = true /\
+  (nodup_names (map d_name (p_tab (transl its))) = true ->
+   forall d pin r, In d (p_top_setup (transl its) ++ p_top_loop (transl its)) -> is_button d = true ->
+     d_pins d = pin :: r ->
+     mem_name (d_name d) (p_polls (transl its)) = true /\ pin_of (transl its) (d_name d) = [pin]).
+Proof.
+  intro its. set (p := transl its). split; [apply nodup_sorted_set|]. split; [apply nodup_sorted_set|].
+  intros Hnd d pin r Hd Hb Hpins.
+  assert (Hintab : forall d0, In d0 (p_top_setup p ++ p_top_loop p) -> In d0 (p_tab p)).
+  { intros d0 H0. change (p_tab p) with (flat_map decls_stmt (all_stmts its)).
+    apply in_flat_map. exists (SDecl d0). split; [|left; reflexivity].
+    apply split_incl. apply in_app_or in H0 as [H0|H0]; [left|right]; apply top_decl_in; exact H0. }
+  split.
+  - change (p_polls p) with (poll_names its). unfold poll_names. rewrite mem_sorted_set.
+    apply mem_name_of_in. apply in_map. apply filter_In. split; [|exact Hb]. exact (Hintab d Hd).
+  - unfold pin_of, button_decl.
+    destruct (find_decl (d_name d) (filter is_button (p_top_setup p ++ p_top_loop p))) as [d'|] eqn:E.
+    + apply find_decl_some in E as [E1 E2]. apply filter_In in E1 as [E1 _]. apply name_eqb_eq in E2.
+      pose proof (find_decl_unique (p_tab p) d Hnd (Hintab d Hd)) as U1.
+      pose proof (find_decl_unique (p_tab p) d' Hnd (Hintab d' E1)) as U2.
+      rewrite <- E2, U1 in U2. inversion U2; subst d'. rewrite Hpins. reflexivity.
+    + exfalso. assert (Hin : In d (filter is_button (p_top_setup p ++ p_top_loop p))) by (apply filter_In; split; assumption).
+      clear -E Hin. induction (filter is_button (p_top_setup p ++ p_top_loop p)) as [|d0 l IH]; [destruct Hin|].
+      cbn [find_decl] in E. destruct (name_eqb (d_name d) (d_name d0)) eqn:E0; [discriminate|].
+      destruct Hin as [->|Hin]; [rewrite name_eqb_refl in E0; discriminate|exact (IH E Hin)].
+Qed.
